@@ -358,7 +358,12 @@ func InstrumentGenerated(dir, hrtImport string) (*GenReport, error) {
 				// ticking them would only slow the simulation down.
 				continue
 			}
-			fd.Body.List = append([]ast.Stmt{tick(fd.Pos())}, fd.Body.List...)
+			rep.Yields++
+			enter := &ast.ExprStmt{X: &ast.CallExpr{
+				Fun:  &ast.SelectorExpr{X: ast.NewIdent("hrt"), Sel: ast.NewIdent("Enter")},
+				Args: []ast.Expr{&ast.BasicLit{Kind: token.STRING, Value: strconv.Quote(strings.TrimSuffix(name, ".gen.go") + ":" + fnName)}},
+			}}
+			fd.Body.List = append([]ast.Stmt{enter}, fd.Body.List...)
 			touched = true
 			ast.Inspect(fd.Body, func(n ast.Node) bool {
 				switch n := n.(type) {
